@@ -291,6 +291,35 @@ def run(ctx):
         ob('R10.4').run(f, '%s(Path, ...) delegates per segment with the same parameters' % fn, th_d, judge_d,
                         opts={'presign': [nonzero(O), (tfs['a'] - 1, '-+')]})
 
+    # default origin of rotate(Path): the whole path's point(0.5), the same for every segment (not each segment's own midpoint)
+    def th_po(it):
+        s0 = it.construct('path.Line', Rat.const(0), Rat.const(3))
+        s1 = it.construct('path.Line', Rat.const(3), Rat.const(3) + I)
+        p = it.construct('path.Path', s0, s1)
+        got = {}
+
+        def hook(it2, a2, k2):
+            got['mapped'] = [it2.call(a2[1], [s], {}) for s in (s0, s1)]
+            return 'WELDED'
+        it.call_hooks['path.transform_segments_together'] = hook
+        try:
+            it.call(it.closure_of('path.rotate'), [p, D], {})
+        finally:
+            del it.call_hooks['path.transform_segments_together']
+        return got
+
+    def judge_po(got):
+        m = got.get('mapped')
+        if not m or not all(isinstance(x, Obj) for x in m):
+            return False, 'Path branch does not map the segments through transform_segments_together'
+        c = Rat.const(2)        # lengths 3 and 1: half of the arc length is at 2 on the first segment
+        pairs = []
+        for k, (a, b) in enumerate(((Rat.const(0), Rat.const(3)), (Rat.const(3), Rat.const(3) + I))):
+            pairs.append(('segment %d start' % k, m[k].attrs['start'], E * (a - c) + c))
+            pairs.append(('segment %d end' % k, m[k].attrs['end'], E * (b - c) + c))
+        return decide_all_equal(pairs)
+    ob('R10.4').run(mdl.func('path.rotate'), 'rotate(Path, deg) default origin = path.point(0.5) for every segment', th_po, judge_po)
+
     # ---------------------------------------------------------------- R10.5 information flow in the arc branch
     _arc_branch_flow(ctx, mdl.func('path.transform'))
 
